@@ -863,6 +863,9 @@ def _array(I, args, kw):
             if k != a.kind and a.kind != 'O':
                 return astype(I, a, dt)
         return a
+    if kw.get('ndmin') == 1:
+        val = a
+        return SArr((1,), lambda q: val, _kind_of(val), tag='array(ndmin=1)')
     return a  # 0-d: scalar stands for itself
 
 
